@@ -462,11 +462,11 @@ void textbundle_write_wrapper(const char * filepath, DString * body, mmd_engine 
 
 	DString * result = textbundle_create(body, e, directory);
 
-	if (!(output_stream = fopen(filepath, "w"))) {
+	if (!(output_stream = fopen(filepath, "wb"))) {
 		// Failed to open file
 		perror(filepath);
 	} else {
-		fwrite(&(result->str), result->currentStringLength, 1, output_stream);
+		fwrite(result->str, result->currentStringLength, 1, output_stream);
 		fclose(output_stream);
 	}
 
